@@ -85,6 +85,8 @@ def run_task(task):
 
         c = next(c for c in load_contracts(prop) if c.name == cname)
         vc = VC(prop, cname, cfg, mode="sym", tier=tier, timeout_s=c.timeout_s or qtimeout)
+        vc.gens = c.gens
+        vc.seed = int(os.environ.get("VERIF_SEED", "0"))
         signal.signal(signal.SIGALRM, _alarm)
         signal.alarm(int(c.task_timeout * (1 if tier == "quick" else 4)))
         try:
